@@ -140,13 +140,18 @@ def run_pair(spec, opts, stdin, texts, pipe_cfg, res, order=None):
     k = simio.Counters()
     fs = simio.SimFS(k)
     if spec['kind'] == 'custom':
-        fs.put('/sim/model.json', json.dumps(spec['spec']).encode('utf-8'))
+        fs.put('/sim/model.json', json.dumps(spec['spec'], ensure_ascii=False).encode('utf-8'))
     argv1 = list(argv)
     stdin1 = b''
     if stdin:
         stdin1 = texts[0].encode('utf-8')
     else:
         enc = opts.get('encoding') or 'utf-8'
+        try:
+            for t in texts:
+                t.encode(enc)
+        except UnicodeEncodeError:
+            enc = 'utf-8'
         if opts.get('encoding'):
             argv1 += ['--encoding', enc]
         for i, t in enumerate(texts):
